@@ -31,7 +31,10 @@ pub fn simplify_case_a(c: &CaseA) -> Vec<CaseA> {
             let end = (start + chunk).min(n);
             let mut ops = c.ops.clone();
             ops.drain(start..end);
-            out.push(CaseA { cfg: c.cfg.clone(), ops });
+            out.push(CaseA {
+                cfg: c.cfg.clone(),
+                ops,
+            });
             start = end;
         }
         if chunk == 1 {
@@ -42,11 +45,20 @@ pub fn simplify_case_a(c: &CaseA) -> Vec<CaseA> {
     out
 }
 
-pub fn report_a(owner: &'static str, case: &CaseA, mode: Mode, nontrivial: impl Fn(&std::collections::BTreeSet<&'static str>) -> bool) -> CaseReport {
+pub fn report_a(
+    owner: &'static str,
+    case: &CaseA,
+    mode: Mode,
+    nontrivial: impl Fn(&std::collections::BTreeSet<&'static str>) -> bool,
+) -> CaseReport {
     crate::enga::set_owner(Some(owner));
     let out = run_case(case, mode);
     crate::enga::set_owner(None);
-    CaseReport { nontrivial: nontrivial(&out.classes), classes: out.classes, viol: out.viol.or(out.foreign) }
+    CaseReport {
+        nontrivial: nontrivial(&out.classes),
+        classes: out.classes,
+        viol: out.viol.or(out.foreign),
+    }
 }
 
 pub fn scale(tier: Tier, quick: u64, thorough: u64) -> u64 {
@@ -98,4 +110,3 @@ pub fn strat_a(p: &Profile, tier: Tier) -> BoxedStrategy<CaseA> {
     ]
     .boxed()
 }
-
